@@ -226,3 +226,128 @@ Example c02_witness_durations :
        (send_call cfg fm {| k_kind := Timer; k_key := [107]; k_arg := ADur (d 18446744073709551615 0); k_ops := [] |} script)
      = Some ([], script)).
 Proof. vm_compute. repeat split; intros cfg fm script; destruct fm; reflexivity. Qed.
+
+(* ==== added after the audit of 2026-10-02 (selftest/audit/REPORT-2026-10-02.md) ==== *)
+Require Import Cadence.Proofs.AuditM1.
+(* (C02.v has N_scope open at its end: nat literals are marked %nat) *)
+(* FLOATS, with the environment assumption as explicit hypotheses.  [F] is any type of numbers
+   (for cadence: f64), [show] any printer (std's Display for f64), [read] any reader (the
+   server's).  For every value x whose text reads back to x and contains no delimiter byte, a
+   gauge / histogram / distribution call with that value produces a line, the server splits
+   out exactly that text as the only value, and reading it gives x back (equality of Coq
+   values: bit identity when F is a type of bit patterns) *)
+Theorem c02_float_on_the_wire : forall (F : Type) (show : F -> str) (read : str -> option F) cfg c x,
+  read (show x) = Some x -> clean (show x) = true ->
+  config_ok cfg = true -> clean (k_key c) = true -> forallb bop_ok (k_ops c) = true ->
+  (k_kind c = Gauge \/ k_kind c = Histogram \/ k_kind c = Distribution) -> k_arg c = AF64 (show x) ->
+  exists l p, client_line cfg c = Some (inr l) /\ parse_line l = Some p /\
+    p_values p = [show x] /\ map read (p_values p) = [Some x] /\ p_type p = code (k_kind c).
+Proof. exact float_on_the_wire_pin. Qed.
+
+(* the same for a sampling rate: with any accepted value of any kind, the LAST
+   with_sampling_rate of the chain is what the server reads back *)
+Theorem c02_rate_on_the_wire : forall (F : Type) (show : F -> str) (read : str -> option F) cfg c r ops1 ops2 v,
+  read (show r) = Some r -> clean (show r) = true ->
+  config_ok cfg = true -> clean (k_key c) = true -> arg_ok (k_arg c) = true ->
+  to_value (k_kind c) (k_arg c) = Some (inr v) -> mv_count v <> 0%nat ->
+  k_ops c = ops1 ++ WithSamplingRate (show r) :: ops2 -> op_rate ops2 = None ->
+  forallb bop_ok ops1 = true -> forallb bop_ok ops2 = true ->
+  exists l p, client_line cfg c = Some (inr l) /\ parse_line l = Some p /\
+    p_rate p = Some (show r) /\ option_map read (p_rate p) = Some (Some r) /\
+    p_values p = value_texts v.
+Proof. exact rate_on_the_wire_pin. Qed.
+
+(* a float value sent with a float sampling rate: both read back *)
+Theorem c02_float_and_rate_on_the_wire :
+  forall (F : Type) (show : F -> str) (read : str -> option F) cfg c x r ops1 ops2,
+  read (show x) = Some x -> clean (show x) = true ->
+  read (show r) = Some r -> clean (show r) = true ->
+  config_ok cfg = true -> clean (k_key c) = true ->
+  (k_kind c = Gauge \/ k_kind c = Histogram \/ k_kind c = Distribution) -> k_arg c = AF64 (show x) ->
+  k_ops c = ops1 ++ WithSamplingRate (show r) :: ops2 -> op_rate ops2 = None ->
+  forallb bop_ok ops1 = true -> forallb bop_ok ops2 = true ->
+  exists l p, client_line cfg c = Some (inr l) /\ parse_line l = Some p /\
+    map read (p_values p) = [Some x] /\ option_map read (p_rate p) = Some (Some r).
+Proof. exact float_and_rate_on_the_wire_pin. Qed.
+
+(* packed floats (histogram / distribution of a Vec<f64>): a non-empty list arrives with the
+   same length, in the same order, every element reading back to itself *)
+Theorem c02_packed_floats_on_the_wire :
+  forall (F : Type) (show : F -> str) (read : str -> option F) cfg c xs,
+  Forall (fun x => read (show x) = Some x /\ clean (show x) = true) xs -> xs <> [] ->
+  config_ok cfg = true -> clean (k_key c) = true -> forallb bop_ok (k_ops c) = true ->
+  (k_kind c = Histogram \/ k_kind c = Distribution) -> k_arg c = AVecF64 (map show xs) ->
+  exists l p, client_line cfg c = Some (inr l) /\ parse_line l = Some p /\
+    p_values p = map show xs /\ map read (p_values p) = map Some xs /\
+    length (p_values p) = length xs /\
+    (forall i, nth_error (p_values p) i = option_map show (nth_error xs i)) /\
+    (forall i, option_map read (nth_error (p_values p) i) = option_map Some (nth_error xs i)).
+Proof. exact packed_floats_on_the_wire. Qed.
+
+(* ... and the empty list is invalid input *)
+Theorem c02_packed_floats_empty : forall cfg c,
+  (k_kind c = Histogram \/ k_kind c = Distribution) -> k_arg c = AVecF64 [] ->
+  client_line cfg c = Some (inl InvalidInput).
+Proof. intros cfg c. exact (packed_floats_empty unit (fun _ => []) cfg c). Qed.
+
+(* the assumption stated for ALL values (the form suggested by the audit, for any F): then
+   every line of a call with a float argument / a Vec<f64> argument / a sampling rate reads
+   back, whatever the kind *)
+Theorem c02_float_on_the_wire_total : forall (F : Type) (show : F -> str) (read : str -> option F),
+  (forall x, read (show x) = Some x) -> (forall x, clean (show x) = true) ->
+  (forall cfg c l x, config_ok cfg = true -> call_ok c = true -> k_arg c = AF64 (show x) ->
+     client_line cfg c = Some (inr l) ->
+     exists p, parse_line l = Some p /\ p_values p = [show x] /\ map read (p_values p) = [Some x]) /\
+  (forall cfg c l xs, config_ok cfg = true -> call_ok c = true -> k_arg c = AVecF64 (map show xs) ->
+     client_line cfg c = Some (inr l) ->
+     exists p, parse_line l = Some p /\ p_values p = map show xs /\ map read (p_values p) = map Some xs /\
+       length (p_values p) = length xs /\ xs <> []) /\
+  (forall cfg c l r, config_ok cfg = true -> call_ok c = true -> op_rate (k_ops c) = Some (show r) ->
+     client_line cfg c = Some (inr l) ->
+     exists p, parse_line l = Some p /\ p_rate p = Some (show r) /\ option_map read (p_rate p) = Some (Some r)).
+Proof.
+  intros F show read H1 H2. split; [exact (float_on_the_wire_total F show read H1)|].
+  split; [exact (packed_floats_on_the_wire_total F show read H1 H2)|exact (rate_on_the_wire_total F show read H1)].
+Qed.
+
+(* the hypotheses are satisfiable for all values of an infinite type (the integers with their
+   numerals), and for a table of two float texts "0.5" / "-1.25e-7": a gauge with two
+   with_sampling_rate calls (the last wins) and a packed histogram of three elements *)
+Example c02_float_hyps_satisfiable : forall z, parse_Z (render_Z z) = Some z /\ clean (render_Z z) = true.
+Proof. exact float_hyps_satisfiable. Qed.
+
+Example c02_float_witness :
+  let cfg := {| c_prefix := []; c_tags := []; c_container := None |} in
+  let g := {| k_kind := Gauge; k_key := [107]%N; k_arg := AF64 (toy_show false);
+              k_ops := [WithSamplingRate (toy_show false); WithSamplingRate (toy_show true)] |} in
+  let h := {| k_kind := Histogram; k_key := [107]%N; k_arg := AVecF64 (map toy_show [true; false; true]);
+              k_ops := [] |} in
+  let view c := match client_line cfg c with
+                | Some (inr l) => option_map (fun p => (map toy_read (p_values p), option_map toy_read (p_rate p)))
+                                             (parse_line l)
+                | _ => None
+                end in
+  (forall b, toy_read (toy_show b) = Some b /\ clean (toy_show b) = true) /\
+  config_ok cfg = true /\ call_ok g = true /\ call_ok h = true /\
+  client_line cfg g =
+    Some (inr [107; 58; 45; 49; 46; 50; 53; 101; 45; 55; 124; 103; 124; 64; 48; 46; 53]%N) /\
+  client_line cfg h =
+    Some (inr [107; 58; 48; 46; 53; 58; 45; 49; 46; 50; 53; 101; 45; 55; 58; 48; 46; 53; 124; 104]%N) /\
+  view g = Some ([Some false], Some (Some true)) /\
+  view h = Some ([Some true; Some false; Some true], None).
+Proof. split; [exact toy_faithful|exact float_witness]. Qed.
+
+(* audit A.24: a user-defined To*Value type is modelled as always returning Ok(v); such a call
+   is rejected only for an empty packed value, never ill-typed, never a conversion error *)
+Theorem c02_user_value : forall cfg c v,
+  k_arg c = AUser v ->
+  (forall e, to_value (k_kind c) (k_arg c) <> Some (inl e)) /\
+  (client_line cfg c = Some (inl InvalidInput) <->
+     (v = PackedSigned [] \/ v = PackedUnsigned [] \/ v = PackedFloat [])) /\
+  (~ (v = PackedSigned [] \/ v = PackedUnsigned [] \/ v = PackedFloat []) ->
+     exists l, client_line cfg c = Some (inr l)) /\
+  client_line cfg c <> None.
+Proof.
+  intros cfg c v Ha. split; [|exact (user_value_rejected_iff_pin cfg c v Ha)].
+  intros e. rewrite Ha. exact (proj2 (user_value_never_conversion_error (k_kind c) v e)).
+Qed.
